@@ -34,6 +34,8 @@ def run(ctx):
         for un in (False, True):
             jobs += [('ord%d_%d_%d' % (i, w, un), src, args, w, 200, un, 300000) for i, (src, args, tag) in enumerate(order)]
     ctx.stats['evaluation_order_forms'] = len(order)
+    # expression statements whose root is an operator, a cast, an index, a literal or `??` but which contain calls
+    jobs += [('%s_%d' % (tag, un), src, a, 2, 200, un, 300000) for tag, src, a in gen_special.exprstmt_programs() for un in (False, True)]
     suites.differential(ctx, jobs, None, label='sequential', must_compile=True)
     # the oracle above runs on the typed tree of the real front end; a sample of the programs is also type-checked by the
     # verified front-end model, and re-run against the model's tree wherever the two trees differ
